@@ -77,8 +77,20 @@ pub fn reconcile_aliases(crate_parsed_data: &mut BTreeMap<CrateName, ParsedData>
         parsed_data.aliases.sort();
         parsed_data.consts.sort();
 
-        // put back our import types for file generation.
-        parsed_data.import_types = import_types;
+        // put back our import types for file generation, under the names the types are
+        // defined with: the other module lists a renamed type under its serde name.
+        parsed_data.import_types = import_types
+            .into_iter()
+            .map(|mut import| {
+                if let Some(renamed) = serde_renamed
+                    .get(&import.type_name)
+                    .and_then(|by_crate| by_crate.get(&import.base_crate))
+                {
+                    import.type_name = renamed.clone();
+                }
+                import
+            })
+            .collect();
     }
 }
 
